@@ -47,9 +47,11 @@ TRUSTED = [
     "second, verbatim copy of that reference for the implementation side",
     "key atoms (extended key / curve point / WIF / address validity) are an oracle of the descriptor grammar model: "
     "the driver is handed btclib's own verdicts (C06/C07/C01 own those)",
-    "derivation (T3) is tied by the real-code oracle alone: expected scripts are hand-assembled from bip32.derive, "
-    "script.serialize, hashlib and curve multiplication; the C07/C12 Lean models are not linked into this driver",
-    "musig() and miniscript descriptors: round-trip / inverse oracles only",
+    "derivation (T3): Model/C14/Derive.lean on the C07 BIP32 model, the C12 taproot model, C06 addresses and the C15 "
+    "miniscript compiler, executed with the shared secp256k1 / hash transcriptions and compared with btclib "
+    "(desc.spk, wallet.model); independently the real code is compared with scripts hand-assembled from "
+    "bip32.derive, script.serialize, hashlib and textbook point addition",
+    "musig() aggregation and miniscripts over extended keys: round-trip / inverse oracles only",
 ]
 ASSUMPTIONS = [
     "spaces around path steps and key atoms, leading zeros of indexes and thresholds, uppercase hex, a trailing "
@@ -174,10 +176,18 @@ def r_tree(t) -> str:
     return f"pk({r_key(t)})"
 
 
+_CUR_BODY = [""]   # the descriptor text being rendered (set by impl()): r_ms looks the keys up in it
+
+
 def r_ms(node) -> str:
-    """a miniscript whose keys are all raw public keys is in C15's model: rendered as its own text."""
+    """a miniscript is in C15's model when every key is a raw public key WRITTEN as contiguous hex (C15's key
+    grammar).  btclib also reads a hex key with spaces inside it (bytes.fromhex skips them: the whitespace
+    leniency listed in ASSUMPTIONS); such a text is outside C15's reader and is rendered `unsupported`."""
+    body = _CUR_BODY[0].lower()
     for k in node.key_expressions:
         if k.participants or k.pub_key is None or k.origin is not None:
+            raise Unsupported
+        if k.pub_key.hex() not in body and k.pub_key[1:].hex() not in body:
             raise Unsupported
     return f"ms({T(str(node))})"
 
@@ -322,13 +332,19 @@ def impl(line: str) -> str:  # noqa: PLR0911, PLR0912
                 return f"ok {r_key(k)} | {T(str(k))}"
             except Unsupported:
                 return "unsupported"
+        if op == "musig":
+            k = KE._parse_musig(unT(t[2]), {})
+            w = 0 if k.wildcard is None else 1
+            return f"ok M[{r_keys(k.participants)};p={nums(k.der_path)};w={w}] | {T(str(k))}"
         if op == "parse":
+            _CUR_BODY[0] = unT(t[2])
             d = D.parse(unT(t[2]))
             try:
                 return f"ok {r_desc(d)} | {T(str(d))}"
             except Unsupported:
                 return "unsupported"
         if op == "atindex":
+            _CUR_BODY[0] = unT(t[2])
             d = D.parse(unT(t[2]))
             try:
                 r_desc(d)
@@ -338,6 +354,7 @@ def impl(line: str) -> str:  # noqa: PLR0911, PLR0912
         if op == "desc.spk":
             prv = None if t[2] == "_" else {unT(a): unT(b) for a, b in (e.split("=") for e in t[2].split(";"))}
             net = t[5]
+            _CUR_BODY[0] = unT(t[3])
             d = D.parse(unT(t[3]), net)
             try:
                 r_desc(d)
@@ -1757,8 +1774,35 @@ _MUSIG = [
 ]
 
 
+def musig_lines(ctx):
+    """`_parse_musig` on musig() key expressions built from generated participants, and mutations."""
+    rng = ctx.rng
+    g = Gen(rng, "mainnet")
+    lines = []
+    for _ in range(ctx.n(40, 300)):
+        n = rng.choice([1, 2, 3])
+        derives = rng.random() < 0.5
+        ks = []
+        for _ in range(n):
+            if derives:
+                k = g.xkey(allow_hardened=False, canonical=rng.random() < 0.7, ranged=False if rng.random() < 0.9 else True)
+            else:
+                k = g.key(canonical=rng.random() < 0.7, allow_hardened=False)
+            ks.append(k.text)
+        text = "musig(" + ",".join(ks) + ")"
+        if derives:
+            text += "".join(f"/{rng.choice([0, 1, 7, H - 1, H])}" for _ in range(rng.choice([0, 1, 2])))
+            text += rng.choice(["", "/*", "/*", "/*h", "/1h"])
+        for m in [text] + [mutate(rng, text) for _ in range(2)]:
+            if m.startswith("musig("):
+                lines.append(f"musig {atoms_for(m)} {T(m)}")
+    lines += [f"musig _ {T(x)}" for x in ["musig()", "musig(", "musig()/0", "musig(,)", "musig())", "musig()x"]]
+    return lines
+
+
 def opaque_batch(ctx):
     rng = ctx.rng
+    stream(ctx, "musig", musig_lines(ctx))
     g = Gen(rng, "mainnet")
     xpubs = [bip32.xpub_from_xprv(bip32.derive(r[0], f"m/86h/0h/{i}h")) for i, r in enumerate(g.roots)]
     for tmpl in _MS + _MUSIG:
